@@ -25,6 +25,8 @@ class Hist:
         self.next_item = 1
         self.nh = 0
         self.pushed = 0
+        self.pend_ub = 0                 # upper bound on the pending items if the queue is right:
+        #                                  every local pop returns an item while anything is pending
         for _ in range(self.n if handles is None else handles):
             self.new()
 
@@ -36,6 +38,7 @@ class Hist:
         x = self.next_item
         self.next_item += 1
         self.pushed += 1
+        self.pend_ub += 1
         return x
 
     def gpush(self):
@@ -48,6 +51,7 @@ class Hist:
         if start is None:
             start = self.rng.randrange(0, max(1, self.n))
         self.ops.append({"op": "lpop", "h": h, "start": start})
+        self.pend_ub = max(0, self.pend_ub - 1)
 
     def gpop(self):
         self.ops.append({"op": "gpop"})
@@ -69,11 +73,11 @@ class Hist:
             self.obs(k, self.rng.randrange(self.nh))
 
     def drain(self):
-        """enough pops to empty everything (an idle pop means nothing is pending, so pushed + 1 pops
-        spread over the handles suffice if the queue is right), ending with
-        one pop per handle, a shared pop and the length reads"""
+        """enough pops to empty everything (a local pop returns an item while anything is pending, so
+        pend_ub + 1 pops spread over the handles suffice if the queue is right; if it is not, the idle
+        clause has fired), ending with one pop per handle, a shared pop and the length reads"""
         if self.nh:
-            total = self.pushed + 2
+            total = self.pend_ub + 2
             style = self.rng.choice(["rr", "one", "rand"])
             one = self.rng.randrange(self.nh)
             for i in range(total):
@@ -210,7 +214,7 @@ def thief_starvation(rng):
     victim = rng.choice([x for x in range(n) if x != thief])
     h.gpush()
     burst = rng.choice([0, 0, 3, 10, 40])
-    feed = rng.choice([1, 1, 2, 4])          # items parked in the victim per dry pop (steals move half)
+    feed = rng.choice([1, 1, 2, 3])          # items parked in the victim per dry pop (steals move half)
     pops = rng.randint(130, 200)
     own = 0
     for i in range(pops):
@@ -251,8 +255,10 @@ def idle_after_steal(rng):
     return h.case("idle_after_steal", drain=True)
 
 
+# tiers: quick (what a wired ./check Cxx --tier quick can afford next to the ordered-queue cases), full (the
+# size used to validate the model: several hundred histories per flag and seed), thorough, search
 def gen_c03(rng, tier):
-    n = {"quick": 320, "thorough": 3000, "search": 300}[tier]
+    n = {"quick": 160, "full": 320, "thorough": 2000, "search": 300}[tier]
     cases = []
     for i in range(n):
         k = i % 5
@@ -270,7 +276,7 @@ def gen_c03(rng, tier):
 
 
 def gen_c04(rng, tier):
-    n = {"quick": 320, "thorough": 3000, "search": 300}[tier]
+    n = {"quick": 160, "full": 320, "thorough": 2000, "search": 300}[tier]
     cases = []
     for i in range(n):
         k = i % 3
@@ -284,7 +290,7 @@ def gen_c04(rng, tier):
 
 
 def gen_c06(rng, tier):
-    n = {"quick": 300, "thorough": 2400, "search": 300}[tier]
+    n = {"quick": 100, "full": 300, "thorough": 1200, "search": 200}[tier]
     cases = []
     for i in range(n):
         k = i % 5
@@ -299,6 +305,11 @@ def gen_c06(rng, tier):
         else:
             cases.append(random_history(rng, rng.randint(5, 40)))
     return cases
+
+
+def is_plain(case):
+    """true for the cases of this module (to dispatch term/nontrivial/distribution in a shared check)"""
+    return case.get("area") == AREA
 
 
 GEN = {"c03": gen_c03, "c04": gen_c04, "c06": gen_c06}
